@@ -47,17 +47,17 @@ TIERS = {
         "cyc_per_op": {"create": 200, "send": 50, "collect": 60, "drop": 200,
                        "write": 90, "display": 90, "hashkey": 40, "hashset": 30,
                        "equal": 400, "hashfind": 20,
-                       "twin:equal": 400, "twin:hashfind": 20, "twin:hashmember": 20, "twin:hashcode": 15},
+                       "twin:equal": 300, "twin:hashfind": 15, "twin:hashmember": 15, "twin:hashcode": 10},
         "cyc_timeout_ms": 2500, "deep_small_timeout_ms": 10000, "deep_timeout_ms": 20000, "deep_big_timeout_ms": 60000,
     },
     "thorough": {
         "cfg": "MC_Shapes_thorough.cfg",
-        "cyc_per_op": {"create": 3000, "send": 600, "collect": 500, "drop": 3000,
-                       "write": 1200, "display": 1200, "hashkey": 600, "hashset": 300,
-                       "equal": 8000, "hashfind": 200,
+        "cyc_per_op": {"create": 3000, "send": 300, "collect": 300, "drop": 3000,
+                       "write": 900, "display": 900, "hashkey": 300, "hashset": 150,
+                       "equal": 8000, "hashfind": 100,
                        # every twin / near-twin pair; the hash operations on them are sampled (on the unchanged
                        # tree each one on a cyclic value costs a dead process, finding C18-hash-of-cyclic-...)
-                       "twin:equal": 10 ** 9, "twin:hashfind": 300, "twin:hashmember": 300, "twin:hashcode": 300},
+                       "twin:equal": 10 ** 9, "twin:hashfind": 150, "twin:hashmember": 150, "twin:hashcode": 150},
         "cyc_timeout_ms": 2500, "deep_small_timeout_ms": 20000, "deep_timeout_ms": 60000, "deep_big_timeout_ms": 120000,
     },
 }
